@@ -162,31 +162,6 @@ pr_harness!(c19_parse_representation_null_recursive, 4, true);
 pr_harness!(c19_parse_representation_repr, 5, false);
 pr_harness!(c19_parse_representation_repr_recursive, 5, true);
 
-/// parse_representation_recursive on a sequence keeps the sequence and resolves its items.
-#[kani::proof]
-#[kani::unwind(12)]
-#[kani::stub(<f64 as std::str::FromStr>::from_str, f64_from_str_stub)]
-pub fn c19_parse_representation_sequence() {
-    let mut buf = [0u8; 2];
-    let n = sym_text(&mut buf);
-    let s = unsafe { std::str::from_utf8_unchecked(&buf[..n]) };
-    sym::note_bytes("text", &buf[..n]);
-    let x: i64 = kani::any();
-    let mut node = Yaml::Sequence(vec![Yaml::Representation(Cow::Borrowed(s), ScalarStyle::DoubleQuoted, None), Yaml::Value(Scalar::Integer(x))]);
-    let ok = node.parse_representation_recursive();
-    assert!(ok, "C19: resolving a sequence failed");
-    match &node {
-        Yaml::Sequence(v) => {
-            assert!(v.len() == 2, "C19: resolving a sequence changed its length");
-            assert!(matches!(&v[0], Yaml::Value(Scalar::String(t)) if t.as_bytes() == s.as_bytes()), "C19: sequence item not resolved to its text");
-            assert!(matches!(&v[1], Yaml::Value(Scalar::Integer(y)) if *y == x), "C19: resolved sequence item changed");
-        }
-        _ => assert!(false, "C19: resolving a sequence destroyed it"),
-    }
-    kani::cover!(true, "must: sequence resolved");
-    std::mem::forget(node);
-}
-
 fn sym_span() -> Span {
     let a: usize = kani::any();
     let b: usize = kani::any();
